@@ -68,7 +68,7 @@ var LeafKinds = []string{
 var WrapKinds = []string{
 	"wrap", "wrapf", "wrapf0", "withmsg", "withmsgf", "withmsgf0", "safedetailsnofmt", "stack", "stackdeep", "stackn", "hint", "hintf0", "detailf0", "hintf", "detail", "detailf", "safedetails", "stwrap",
 	"telemetry", "domain", "issuelink", "tags", "assertion", "mark", "secondary", "combine", "wrapferr", "wrapfgosyntax",
-	"handled", "handledmsg", "handledmsgf", "handledmsgf0", "handledsafemsg", "handleddomain", "handleddomainmsg", "domhandled", "handleassert", "assertwrap",
+	"handled", "handledmsg", "handledmsgf", "handledmsgf0", "handledsafemsg", "handleddomain", "handleddomainmsg", "domhandled", "handleassert", "assertwrap", "assertwraperr",
 	"newfw", "newfwsuffix", "httpcode", "grpccode",
 	"goerrorf", "goerrorfsuffix", "ospath", "oslink", "ossyscall", "netop", "dnswrap",
 	"pkgmsg", "pkgstack", "pkgwrap",
@@ -79,7 +79,13 @@ var WrapKinds = []string{
 var MultiKinds = []string{"join", "subjoin", "gojoin", "goerrorfmulti", "umulti", "rmulti", "umulticause", "umultias"}
 
 // BarrierKinds hide their C behind a barrier.
-var BarrierKinds = []string{"handled", "handledmsg", "handledmsgf", "handledmsgf0", "handledsafemsg", "handleddomain", "handleddomainmsg", "domhandled", "handleassert", "assertwrap"}
+var BarrierKinds = []string{"handled", "handledmsg", "handledmsgf", "handledmsgf0", "handledsafemsg", "handleddomain", "handleddomainmsg", "domhandled", "handleassert", "assertwrap", "assertwraperr"}
+
+// SecondaryKinds keep their X sub-errors as secondary errors (hidden
+// from cause analysis, shown in %+v).
+var SecondaryKinds = []string{"secondary", "combine", "wrapferr", "newfwerr", "assertwraperr"}
+
+func IsSecondaryKind(k string) bool { return in(k, SecondaryKinds) }
 
 func IsBarrierKind(k string) bool { return in(k, BarrierKinds) }
 
@@ -345,8 +351,9 @@ func (g *Cfg) WrapOf(t *rapid.T, k string, c *Spec) *Spec {
 		}
 	case "mark", "secondary", "combine":
 		s.X = []*Spec{nil}
-	case "wrapferr":
-		// Wrapf with an error-typed argument (captured as secondary error).
+	case "wrapferr", "assertwraperr":
+		// Wrapf / NewAssertionErrorWithWrappedErrf with an error-typed
+		// argument (captured as secondary error).
 		s.S = []string{str(t, "lit")}
 		s.X = []*Spec{nil}
 	case "httpcode":
@@ -357,12 +364,20 @@ func (g *Cfg) WrapOf(t *rapid.T, k string, c *Spec) *Spec {
 		s.I = []int{rapid.IntRange(0, 16).Draw(t, "code")}
 	case "ospath":
 		s.S = []string{rapid.SampledFrom([]string{"open", "read", "stat"}).Draw(t, "op"), str(t, "path")}
+		if rapid.IntRange(0, 7).Draw(t, "emptypath") == 7 {
+			s.S[1] = "" // what os.Open("") reports
+		}
 	case "oslink":
 		s.S = []string{rapid.SampledFrom([]string{"link", "rename"}).Draw(t, "op"), str(t, "old"), str(t, "new")}
+		if e := rapid.IntRange(0, 15).Draw(t, "emptypath"); e >= 14 {
+			s.S[e-13] = ""
+		}
 	case "ossyscall":
 		s.S = []string{rapid.SampledFrom([]string{"open", "connect"}).Draw(t, "syscall")}
 	case "netop":
+		// I[0] = 1: the address is the Source (local) address, no Addr
 		s.S = []string{rapid.SampledFrom([]string{"dial", "read"}).Draw(t, "op"), rapid.SampledFrom([]string{"tcp", "udp", ""}).Draw(t, "net"), str(t, "addr")}
+		s.I = []int{rapid.SampledFrom([]int{0, 0, 0, 1}).Draw(t, "sourceonly")}
 	case "netopsrc":
 		s.S = []string{rapid.SampledFrom([]string{"dial", "write"}).Draw(t, "op"), rapid.SampledFrom([]string{"tcp", "udp", ""}).Draw(t, "net"), str(t, "source"), str(t, "addr")}
 	case "dnswrap":
